@@ -35,6 +35,7 @@
 package c27
 
 import (
+	"errors"
 	"fmt"
 	"math/big"
 	"sort"
@@ -42,6 +43,7 @@ import (
 	"sync"
 
 	"github.com/blinklabs-io/gouroboros/ledger/common"
+	"github.com/blinklabs-io/gouroboros/ledger/shelley"
 
 	"verifharness/cborx"
 	"verifharness/core"
@@ -382,6 +384,30 @@ func explain(d *desc, lib bool) variant {
 	return 0
 }
 
+// explainReject attributes the rejection of a balanced transaction: when the
+// library reports the coin totals it computed, the wrong formula that yields
+// exactly those totals is the explanation; otherwise the first wrong formula
+// under which the equation fails.
+func explainReject(d *desc, rerr error) variant {
+	var vnc shelley.ValueNotConservedUtxoError
+	if errors.As(rerr, &vnc) && vnc.Consumed != nil && vnc.Produced != nil {
+		for _, v := range explainOrder {
+			cc, pc, _, _ := sides(d, v)
+			if cc.Cmp(pc) != 0 && cc.Cmp(vnc.Consumed) == 0 && pc.Cmp(vnc.Produced) == 0 {
+				return v
+			}
+		}
+		// an asset mismatch: the formula must leave the coin balanced
+		for _, v := range explainOrder {
+			cc, pc, _, _ := sides(d, v)
+			if cc.Cmp(pc) == 0 && !balanced(d, v) {
+				return v
+			}
+		}
+	}
+	return explain(d, false)
+}
+
 // ---------------------------------------------------------------- generation
 
 var (
@@ -636,6 +662,123 @@ func perturb(r *core.Rand, d *desc) string {
 	return "fee"
 }
 
+// minimalCases are the smallest transactions of the classes the PRNG families
+// explore, so that a finding carries a small witness: for every wrong formula
+// a transaction with exactly the one feature the formula is about, balanced
+// under the wrong formula (forward direction) and under the true one
+// (converse direction).
+func minimalCases(e lg.Era) []labelled {
+	p := lg.DefaultParams(e)
+	mk := func() *desc {
+		return &desc{era: e, poolsInLS: map[int]bool{}, keyDeposit: uint64(p.KeyDeposit), poolDeposit: uint64(p.PoolDeposit), mint: holding{},
+			inputs: []txo{{coin: 2_000_000_000_000, assets: holding{}}}, fee: 200_000}
+	}
+	var out []labelled
+	add := func(name string, d *desc, features variant) {
+		// features: the wrong formulas that matter for this transaction
+		for i := 0; i < nVariants+1; i++ {
+			var w variant
+			if i > 0 {
+				w = 1 << uint(i-1)
+				if w&features == 0 {
+					continue
+				}
+			}
+			c := *d
+			c.inputs = []txo{{coin: d.inputs[0].coin, assets: d.inputs[0].assets.clone()}}
+			c.mint = d.mint.clone()
+			cc, pc, ca, _ := sides(&c, w)
+			o := txo{coin: new(big.Int).Sub(cc, pc).Uint64(), assets: holding{}}
+			ok := true
+			for a, q := range ca {
+				if q.Sign() < 0 {
+					ok = false
+				}
+				if q.Sign() > 0 {
+					o.assets.add(a, q)
+				}
+			}
+			if !ok {
+				continue
+			}
+			c.outputs = []txo{o}
+			l := "minimal:" + name + ":balanced"
+			if w != 0 {
+				l = "minimal:" + name + ":as-if:" + variantName[w]
+			}
+			out = append(out, labelled{&c, l})
+		}
+	}
+	d := mk()
+	d.certs = []cert{{kind: cPoolReg, id: 1}, {kind: cPoolReg, id: 1}}
+	add("same-new-pool-registered-twice", d, wPoolDepositPerCert|wNoPoolDeposit)
+	d = mk()
+	d.certs = []cert{{kind: cPoolReg, id: 1}}
+	d.poolsInLS[1] = true
+	add("pool-re-registration", d, wPoolDepositAlways)
+	d = mk()
+	d.certs = []cert{{kind: cPoolRetire, id: 1}}
+	d.poolsInLS[1] = true
+	add("pool-retirement", d, wRefundPoolRetire)
+	d = mk()
+	d.certs = []cert{{kind: cStakeReg, id: 1}}
+	add("stake-registration", d, wDropStakeRegDeposit)
+	d = mk()
+	d.certs = []cert{{kind: cStakeDereg, id: 1}}
+	add("stake-deregistration", d, wDropStakeDeregRefund)
+	d = mk()
+	d.withdrawals = []uint64{1_234_567}
+	add("withdrawal", d, wDropWithdrawals)
+	if e.HasMultiAsset() {
+		d = mk()
+		d.mint.add(asset{zeroPolicy, "x"}, big.NewInt(5))
+		add("mint-under-zero-policy", d, wZeroPolicyIgnored|wIgnoreMint)
+		d = mk()
+		d.mint.add(asset{zeroPolicy, ""}, big.NewInt(1_000_000))
+		add("mint-under-zero-policy-empty-name", d, wZeroPolicyIgnored|wZeroPolicyEmptyNameIsCoin|wIgnoreMint)
+		d = mk()
+		d.inputs[0].assets.add(asset{zeroPolicy, "x"}, big.NewInt(5))
+		d.mint.add(asset{zeroPolicy, "x"}, big.NewInt(-5))
+		add("burn-under-zero-policy", d, wZeroPolicyIgnored)
+		d = mk()
+		d.inputs[0].assets.add(asset{polP1, "a"}, big.NewInt(9))
+		d.mint.add(asset{polP1, "a"}, big.NewInt(-4))
+		add("burn", d, wBurnAsMint|wIgnoreMint)
+		d = mk()
+		d.mint.add(asset{polP1, "a"}, big.NewInt(4))
+		add("mint", d, wIgnoreMint)
+	}
+	if e >= lg.Conway {
+		for _, k := range []certKind{cReg, cStakeRegDeleg, cVoteRegDeleg, cStakeVoteRegDeleg} {
+			d = mk()
+			d.certs = []cert{{kind: k, id: 1, amount: d.keyDeposit}}
+			add(certName[k], d, wDropExplicitRegDeposit)
+		}
+		d = mk()
+		d.certs = []cert{{kind: cUnreg, id: 1, amount: d.keyDeposit}}
+		add("unreg", d, wDropExplicitUnregRefund)
+		d = mk()
+		d.certs = []cert{{kind: cDRepReg, id: 1, amount: p.DRepDeposit}}
+		add("drep-reg", d, wDropDRepDeposit)
+		d = mk()
+		d.certs = []cert{{kind: cDRepUnreg, id: 1, amount: p.DRepDeposit}}
+		add("drep-unreg", d, wDropDRepRefund)
+		d = mk()
+		d.proposals = []uint64{p.GovActionDeposit}
+		add("proposal", d, wDropProposals)
+		d = mk()
+		v := uint64(7_000_000)
+		d.donation = &v
+		add("donation", d, wDropDonation)
+	}
+	return out
+}
+
+type labelled struct {
+	d     *desc
+	label string
+}
+
 // ---------------------------------------------------------------- building
 
 func credOf(kind string, id int) lg.Hash28 {
@@ -850,14 +993,19 @@ func run(c *core.Ctx) {
 		era     lg.Era
 		payment bool
 		k       int
+		fixed   *labelled
 	}
 	var jobs []job
 	for _, e := range lg.AllEras {
+		for _, m := range minimalCases(e) {
+			m := m
+			jobs = append(jobs, job{era: e, k: -1, fixed: &m})
+		}
 		for k := 0; k < perEra; k++ {
-			jobs = append(jobs, job{e, false, k})
+			jobs = append(jobs, job{era: e, k: k})
 		}
 		for k := 0; k < payments; k++ {
-			jobs = append(jobs, job{e, true, k})
+			jobs = append(jobs, job{era: e, payment: true, k: k})
 		}
 	}
 	rules := map[lg.Era]common.UtxoValidationRuleFunc{}
@@ -890,7 +1038,12 @@ func run(c *core.Ctx) {
 		if j.payment {
 			w = 0
 		}
-		d, label := generate(r, e, w, pm1, j.payment)
+		d, label := (*desc)(nil), ""
+		if j.fixed != nil {
+			d, label = j.fixed.d, j.fixed.label
+		} else {
+			d, label = generate(r, e, w, pm1, j.payment)
+		}
 		spec, st, err := d.build(i)
 		if err != nil {
 			c.Count("utxo_not_decodable_"+en, 1)
@@ -915,6 +1068,9 @@ func run(c *core.Ctx) {
 		}
 		lib := rerr == nil
 		c.Count("generated:"+strings.SplitN(label, ":", 2)[0], 1)
+		if j.fixed != nil {
+			c.Count("minimal_cases_"+en, 1)
+		}
 		switch {
 		case lib && truth:
 			c.Count("balanced_accepted_"+en, 1)
@@ -953,6 +1109,9 @@ func run(c *core.Ctx) {
 			return
 		}
 		ex := explain(d, lib)
+		if !lib {
+			ex = explainReject(d, rerr)
+		}
 		var names []string
 		if ex != 0 {
 			names = ex.names()
